@@ -21,6 +21,9 @@ def spaces(tier):
             dict(family='probe', size=1, level=1, cfg='K0', t0=['empty', 'full'], mut='none'),
             dict(size=2, level=2, cfg='K0', t0=['empty', 'dir_d_j'], mut='outputs', kw=small),
             dict(family='chain3', size=3, level=1, cfg='K0', t0=['empty'], mut='none'),
+            # two outputs in one directory two created levels deep (sibling reservations below a new grandparent)
+            dict(size=2, level=2, cfg='K0', t0=['empty', 'dir_d'], mut='none',
+                 kw=dict(paths=['d/e/z', 'd/e/w', 'd/x'], bf_modes=['ok', 'rb', 'ra'], sb_modes=['ok'])),
         ]
     return [
         dict(size=1, level=2, cfg=c, t0=list(gen.T0S), mut='all') for c in ('K0', 'K1')
